@@ -288,12 +288,13 @@ def euler(ai, bi, select, b1950=False, dtype="f8"):
     cb = cos(b)
     cbsa = cb * sin(a)
     b = -stheta[i] * cbsa + ctheta[i] * sb
-    (w,) = np.where(b > 1.0)
-    if w.size > 0:
-        b[w] = 1.0
-    bo = arcsin(b) * R2D
+    ay = ctheta[i] * cbsa + stheta[i] * sb
+    ax = cb * cos(a)
 
-    a = arctan2(ctheta[i] * cbsa + stheta[i] * sb, cb * cos(a))
+    # arctan2 is accurate at the poles, where arcsin is not
+    bo = arctan2(b, np.sqrt(ax * ax + ay * ay)) * R2D
+
+    a = arctan2(ay, ax)
 
     ao = ((a + psi[i] + fourpi) % twopi) * R2D
 
